@@ -137,36 +137,24 @@ theorem clean_arr (xs : List JV) (h : (JV.arr xs).clean = true) : ∀ x ∈ xs, 
   rw [JV.clean] at h; exact (cleanL_iff xs).mp h
 
 theorem clean_obj (kvs : Obj) (h : (JV.obj kvs).clean = true) :
-    trimmable kvs = false ∧ refOK kvs = true ∧ ∀ kv ∈ kvs, kv.2.clean = true := by
+    trimmable kvs = false ∧ ∀ kv ∈ kvs, kv.2.clean = true := by
   rw [JV.clean] at h
   simp only [Bool.and_eq_true, Bool.not_eq_true'] at h
-  exact ⟨h.1.1, h.1.2, (cleanO_iff kvs).mp h.2⟩
+  exact ⟨h.1, (cleanO_iff kvs).mp h.2⟩
 
 theorem clean_lookup (kvs : Obj) (h : (JV.obj kvs).clean = true) (k : String) (v : JV)
     (hv : lookup k kvs = some v) : v.clean = true :=
-  (clean_obj kvs h).2.2 (k, v) (lookup_mem k v kvs hv)
+  (clean_obj kvs h).2 (k, v) (lookup_mem k v kvs hv)
 
 theorem clean_nullFix (s : Shape) (v : JV) (h : v.clean = true) : (nullFix s v).clean = true := by
   unfold nullFix
   split
-  · simp [JV.clean, cleanO, trimmable, refOK, lookup]
+  · simp [JV.clean, cleanO, trimmable, lookup]
   · simp [JV.clean]
   · exact h
 
 theorem clean_empty : (JV.obj []).clean = true := by
-  simp [JV.clean, cleanO, trimmable, refOK, lookup]
-
-/-- in scope, an object without a reference has no `$ref` member at all -/
-theorem lookup_ref_none_of_clean (kvs : Obj) (h : (JV.obj kvs).clean = true) (hr : refString kvs = none) :
-    lookup "$ref" kvs = none := by
-  have h2 := (clean_obj kvs h).2.1
-  unfold refOK at h2
-  unfold refString at hr
-  cases hl : lookup "$ref" kvs with
-  | none => rfl
-  | some x =>
-    rw [hl] at h2 hr
-    cases x <;> simp_all
+  simp [JV.clean, cleanO, trimmable, lookup]
 
 theorem refString_none_of_lookup (kvs : Obj) (h : lookup "$ref" kvs = none) : refString kvs = none := by
   simp [refString, h]
@@ -182,8 +170,11 @@ structure Inv (f : Shape → JV → Res JV) : Prop where
   leaf : ∀ v v1, f .leaf v = .ok v1 → v1 = v
   /-- a non-empty collection stays non-empty -/
   coll : ∀ s v v1, collShape s = true → f s v = .ok v1 → v.nonEmpty = true → v1.nonEmpty = true
-  /-- no `$ref` member is invented -/
-  noRef : ∀ s kvs kvs1, f s (.obj kvs) = .ok (.obj kvs1) → lookup "$ref" kvs = none → lookup "$ref" kvs1 = none
+  /-- an object that is not a reference does not become one -/
+  noRef : ∀ s kvs kvs1, refSafe s = true → f s (.obj kvs) = .ok (.obj kvs1) → refString kvs = none →
+    refString kvs1 = none
+  /-- a non-empty string in the output stood in the input -/
+  strOrigin : ∀ s v t, s ≠ .types → f s v = .ok (.str t) → t ≠ "" → v = .str t
 
 def TableOK (T : List Desc) : Prop := ∀ d ∈ T, d.deepOK = true
 
@@ -195,7 +186,14 @@ theorem valueShape_ne_types (T : List Desc) (hT : TableOK T) (n : String) (d : D
   have := hT d (findDesc_mem T n d h)
   unfold Desc.deepOK at this
   simp only [Bool.and_eq_true, bne_iff_ne, ne_eq] at this
-  exact this.1
+  exact this.1.1
+
+theorem valueShape_refSafe (T : List Desc) (hT : TableOK T) (n : String) (d : Desc)
+    (h : findDesc T n = some d) : refSafe d.valueShape = true := by
+  have := hT d (findDesc_mem T n d h)
+  unfold Desc.deepOK at this
+  simp only [Bool.and_eq_true] at this
+  exact this.1.2
 
 /-! ### `Types` -/
 
@@ -356,6 +354,118 @@ theorem mapKV_length (g : String → JV → Res JV) (kvs kvs1 : Obj) (h : mapKV 
     kvs1.length = kvs.length := mapR_length _ kvs kvs1 h
 
 
+/-! ### references: an object that is not a reference does not become one -/
+
+theorem refString_none_iff (kvs : Obj) :
+    refString kvs = none ↔ ∀ t, lookup "$ref" kvs = some (.str t) → t = "" := by
+  unfold refString
+  cases hl : lookup "$ref" kvs with
+  | none => simp
+  | some x =>
+    cases x with
+    | str u =>
+      by_cases hu : u = ""
+      · subst hu; simp
+      · simp [hu]
+    | _ => simp
+
+theorem mapR_cons_ok {α β : Type} {g : α → Res β} {x : α} {xs : List α} {ys : List β}
+    (h : mapR g (x :: xs) = .ok ys) : ∃ y ys', g x = .ok y ∧ mapR g xs = .ok ys' ∧ ys = y :: ys' := by
+  simp only [mapR] at h
+  cases hx : g x with
+  | error e => simp [hx] at h
+  | ok y =>
+    cases hr : mapR g xs with
+    | error e => simp [hx, hr] at h
+    | ok ys' =>
+      simp only [hx, hr] at h
+      cases h
+      exact ⟨y, ys', rfl, rfl, rfl⟩
+
+theorem mapKV_lookup (g : String → JV → Res JV) : ∀ (kvs kvs1 : Obj), mapKV g kvs = .ok kvs1 → ∀ k,
+    (∀ x, lookup k kvs = some x → ∃ y, g k x = .ok y ∧ lookup k kvs1 = some y) ∧
+    (lookup k kvs = none → lookup k kvs1 = none)
+  | [], kvs1, h, k => by
+    simp only [mapKV, mapR] at h; cases h
+    simp [lookup]
+  | (k0, x0) :: r, kvs1, h, k => by
+    unfold mapKV at h
+    obtain ⟨y, r1, hy, hr, rfl⟩ := mapR_cons_ok h
+    obtain ⟨c0, hx, rfl⟩ := wrap_ok _ _ _ hy
+    have ih := mapKV_lookup g r r1 hr k
+    by_cases e : k = k0
+    · subst e
+      simp only [lookup, if_true]
+      refine ⟨fun x hx' => ?_, fun hn => by cases hn⟩
+      cases hx'
+      exact ⟨c0, hx, rfl⟩
+    · simp only [lookup, e, if_false]
+      exact ih
+
+theorem mapKV_refString (g : String → JV → Res JV) (kvs kvs1 : Obj) (h : mapKV g kvs = .ok kvs1)
+    (hg : ∀ x t, g "$ref" x = .ok (.str t) → t ≠ "" → x = .str t) (hr : refString kvs = none) :
+    refString kvs1 = none := by
+  rw [refString_none_iff] at hr ⊢
+  intro t ht
+  obtain ⟨h1, h2⟩ := mapKV_lookup g kvs kvs1 h "$ref"
+  cases hl : lookup "$ref" kvs with
+  | none => rw [h2 hl] at ht; cases ht
+  | some x =>
+    obtain ⟨y, hy, hy2⟩ := h1 x hl
+    rw [hy2] at ht; cases ht
+    by_cases h0 : t = ""
+    · exact h0
+    · have := hg x t hy h0
+      subst this
+      exact hr t hl
+
+theorem nullFix_eq_nonempty_str (s : Shape) (x : JV) (t : String) (ht : t ≠ "") (h : nullFix s x = .str t) :
+    x = .str t := by
+  cases x with
+  | null => cases s <;> simp [nullFix] at h; exact absurd h ht
+  | _ => rw [nullFix_of_not_null s _ rfl] at h; exact h
+
+theorem entryStep_strOrigin {T : List Desc} {f : Shape → JV → Res JV} (hf : Inv f) (s : Shape) (hs : s ≠ .types)
+    (x : JV) (t : String) (h : entryStep T f s x = .ok (.str t)) (ht : t ≠ "") : x = .str t := by
+  by_cases hn : x.isNull = false
+  · rw [entryStep_of_not_null T f s x hn] at h
+    exact hf.strOrigin s x t hs h ht
+  · have : x = .null := by cases x <;> simp [JV.isNull] at hn; rfl
+    subst this
+    cases s with
+    | ref w =>
+      have e : entryStep T f (.ref w) .null = nilEntry T w := rfl
+      rw [e] at h
+      have := nilEntry_ok T w _ h; cases this
+    | kind k =>
+      have e : entryStep T f (.kind k) .null = f (.kind k) (.obj []) := rfl
+      rw [e] at h
+      have := hf.strOrigin _ _ t (by simp) h ht; cases this
+    | strLeaf =>
+      have e : entryStep T f .strLeaf .null = f .strLeaf (.str "") := rfl
+      rw [e] at h
+      have := hf.strOrigin _ _ t (by simp) h ht
+      cases this; exact absurd rfl ht
+    | types => exact absurd rfl hs
+    | leaf => simp [entryStep] at h
+    | maplike w => simp [entryStep] at h
+    | list s => simp [entryStep] at h
+    | map s => simp [entryStep] at h
+    | pmap s => simp [entryStep] at h
+    | addProps => simp [entryStep] at h
+    | unknown u => simp [entryStep] at h
+
+theorem isExtKey_ref : isExtKey "$ref" = false := by decide
+
+theorem entryShape_ne_types (T : List Desc) (hT : TableOK T) (n : String) (d : Desc)
+    (h : findDesc T n = some d) : entryShapeOf d ≠ .types := by
+  have h1 := valueShape_ne_types T hT n d h
+  have h2 := valueShape_refSafe T hT n d h
+  unfold entryShapeOf
+  cases hv : d.valueShape with
+  | map s => rw [hv] at h2; simpa [refSafe] using h2
+  | _ => rw [hv] at h1; simpa using h1
+
 /-! ### the steps that are not struct kinds -/
 
 section steps
@@ -424,7 +534,7 @@ theorem stepMap_idem (hf : Inv f) (s : Shape) (v v1 : JV) (hv : v.clean = true)
       have hc' : f s (nullFix s kv.2) = .ok c := hc
       show f s (nullFix s c) = .ok c
       rw [nullFix_out hf s kv.2 c hc']
-      exact hf.idem s _ c (clean_nullFix s kv.2 ((clean_obj kvs hv).2.2 kv hkv)) hc')
+      exact hf.idem s _ c (clean_nullFix s kv.2 ((clean_obj kvs hv).2 kv hkv)) hc')
     simp only [stepMap, this, Res.wrap]
   | _ => simp only [stepMap] at h; cases h; rfl
 
@@ -447,12 +557,13 @@ theorem stepMap_coll (s : Shape) (v v1 : JV) (h : stepMap f s v = .ok v1) (hn : 
     exact ne_nil_of_length_eq kvs kvs1 (mapKV_length _ kvs kvs1 hm) hn
   | _ => simp only [stepMap] at h; cases h; exact hn
 
-theorem stepMap_noRef (s : Shape) (kvs kvs1 : Obj) (h : stepMap f s (.obj kvs) = .ok (.obj kvs1))
-    (hr : lookup "$ref" kvs = none) : lookup "$ref" kvs1 = none := by
+theorem stepMap_noRef (hf : Inv f) (s : Shape) (hs : s ≠ .types) (kvs kvs1 : Obj)
+    (h : stepMap f s (.obj kvs) = .ok (.obj kvs1)) (hr : refString kvs = none) : refString kvs1 = none := by
   simp only [stepMap] at h
   obtain ⟨kvs2, hm, e⟩ := wrap_ok _ _ _ h
   cases e
-  exact lookup_none_of_keys "$ref" kvs kvs1 (mapKV_keys _ kvs kvs1 hm) hr
+  exact mapKV_refString _ kvs kvs1 hm (fun x t hx ht =>
+    nullFix_eq_nonempty_str s x t ht (hf.strOrigin s _ t hs hx ht)) hr
 
 /- named map -/
 
@@ -463,7 +574,7 @@ theorem stepPMap_idem (hf : Inv f) (s : Shape) (v v1 : JV) (hv : v.clean = true)
     simp only [stepPMap] at h
     obtain ⟨kvs1, hm, rfl⟩ := wrap_ok _ _ _ h
     have := mapKV_idem _ kvs kvs1 hm (fun kv hkv c hc =>
-      entryStep_idem hf s kv.2 c ((clean_obj kvs hv).2.2 kv hkv) hc)
+      entryStep_idem hf s kv.2 c ((clean_obj kvs hv).2 kv hkv) hc)
     simp only [stepPMap, this, Res.wrap]
   | _ => simp only [stepPMap] at h; cases h; rfl
 
@@ -486,12 +597,12 @@ theorem stepPMap_coll (s : Shape) (v v1 : JV) (h : stepPMap T f s v = .ok v1) (h
     exact ne_nil_of_length_eq kvs kvs1 (mapKV_length _ kvs kvs1 hm) hn
   | _ => simp only [stepPMap] at h; cases h; exact hn
 
-theorem stepPMap_noRef (s : Shape) (kvs kvs1 : Obj) (h : stepPMap T f s (.obj kvs) = .ok (.obj kvs1))
-    (hr : lookup "$ref" kvs = none) : lookup "$ref" kvs1 = none := by
+theorem stepPMap_noRef (hf : Inv f) (s : Shape) (hs : s ≠ .types) (kvs kvs1 : Obj)
+    (h : stepPMap T f s (.obj kvs) = .ok (.obj kvs1)) (hr : refString kvs = none) : refString kvs1 = none := by
   simp only [stepPMap] at h
   obtain ⟨kvs2, hm, e⟩ := wrap_ok _ _ _ h
   cases e
-  exact lookup_none_of_keys "$ref" kvs kvs1 (mapKV_keys _ kvs kvs1 hm) hr
+  exact mapKV_refString _ kvs kvs1 hm (fun x t hx ht => entryStep_strOrigin hf s hs x t hx ht) hr
 
 /- additionalProperties -/
 
@@ -524,12 +635,12 @@ theorem stepAddProps_nn (hf : Inv f) (v v1 : JV) (h : stepAddProps f v = .ok v1)
   | _ => simp only [stepAddProps] at h; cases h; exact hn
 
 theorem stepAddProps_noRef (hf : Inv f) (kvs kvs1 : Obj) (h : stepAddProps f (.obj kvs) = .ok (.obj kvs1))
-    (hr : lookup "$ref" kvs = none) : lookup "$ref" kvs1 = none := by
+    (hr : refString kvs = none) : refString kvs1 = none := by
   cases kvs with
   | nil => simp only [stepAddProps] at h; cases h; exact hr
   | cons kv r =>
     simp only [stepAddProps] at h
-    exact hf.noRef _ _ kvs1 h hr
+    exact hf.noRef _ _ kvs1 rfl h hr
 
 /- reference wrapper -/
 
@@ -544,7 +655,7 @@ theorem refString_ne_empty (kvs : Obj) (r : String) (h : refString kvs = some r)
 theorem refString_single (r : String) (h : r ≠ "") : refString [("$ref", JV.str r)] = some r := by
   simp [refString, lookup, h]
 
-theorem stepRef_idem (hf : Inv f) (w : String) (v v1 : JV) (hv : v.clean = true)
+theorem stepRef_idem (hT : TableOK T) (hf : Inv f) (w : String) (v v1 : JV) (hv : v.clean = true)
     (h : stepRef T f w v = .ok v1) : stepRef T f w v1 = .ok v1 := by
   cases v with
   | obj kvs =>
@@ -559,11 +670,10 @@ theorem stepRef_idem (hf : Inv f) (w : String) (v v1 : JV) (hv : v.clean = true)
         simp only [stepRef, hd, refString_single r (refString_ne_empty kvs r hr)]
       | none =>
         simp only [hr] at h
-        have hl := lookup_ref_none_of_clean kvs hv hr
         have h2 := hf.idem _ _ v1 hv h
         cases v1 with
         | obj kvs1 =>
-          have := refString_none_of_lookup kvs1 (hf.noRef _ kvs kvs1 h hl)
+          have := hf.noRef _ kvs kvs1 (valueShape_refSafe T hT w d hd) h hr
           simp only [stepRef, hd, this]; exact h2
         | _ => rfl
   | _ => simp only [stepRef] at h; cases h; rfl
@@ -584,14 +694,14 @@ theorem stepRef_nn (hT : TableOK T) (hf : Inv f) (w : String) (v v1 : JV) (h : s
         exact hf.nn _ _ v1 (valueShape_ne_types T hT w d hd) h hn
   | _ => simp only [stepRef] at h; cases h; exact hn
 
-theorem stepRef_noRef (hf : Inv f) (w : String) (kvs kvs1 : Obj) (h : stepRef T f w (.obj kvs) = .ok (.obj kvs1))
-    (hl : lookup "$ref" kvs = none) : lookup "$ref" kvs1 = none := by
+theorem stepRef_noRef (hT : TableOK T) (hf : Inv f) (w : String) (kvs kvs1 : Obj)
+    (h : stepRef T f w (.obj kvs) = .ok (.obj kvs1)) (hr : refString kvs = none) : refString kvs1 = none := by
   simp only [stepRef] at h
   cases hd : findDesc T w with
-  | none => simp only [hd] at h; cases h; exact hl
+  | none => simp only [hd] at h; cases h; exact hr
   | some d =>
-    simp only [hd, refString_none_of_lookup kvs hl] at h
-    exact hf.noRef _ kvs kvs1 h hl
+    simp only [hd, hr] at h
+    exact hf.noRef _ kvs kvs1 (valueShape_refSafe T hT w d hd) h hr
 
 /- map-like container -/
 
@@ -615,7 +725,7 @@ theorem stepMaplike_idem (hf : Inv f) (w : String) (v v1 : JV) (hv : v.clean = t
         have := (List.mem_filter.mp hkv').2
         rw [← e]; exact this
       have := mapKV_idem _ _ kvs1 hm (fun kv hkv c hc => by
-        have hcl : kv.2.clean = true := (clean_obj kvs hv).2.2 kv (List.mem_filter.mp hkv).1
+        have hcl : kv.2.clean = true := (clean_obj kvs hv).2 kv (List.mem_filter.mp hkv).1
         by_cases hx : isExtKey kv.1 = true
         · simp only [hx, if_true] at hc ⊢
         · simp only [hx] at hc ⊢
@@ -636,16 +746,89 @@ theorem stepMaplike_nn (w : String) (v v1 : JV) (h : stepMaplike T f w v = .ok v
       rfl
   | _ => simp only [stepMaplike] at h; cases h; exact hn
 
-theorem stepMaplike_noRef (w : String) (kvs kvs1 : Obj) (h : stepMaplike T f w (.obj kvs) = .ok (.obj kvs1))
-    (hl : lookup "$ref" kvs = none) : lookup "$ref" kvs1 = none := by
+theorem stepMaplike_noRef (hT : TableOK T) (hf : Inv f) (w : String) (kvs kvs1 : Obj)
+    (h : stepMaplike T f w (.obj kvs) = .ok (.obj kvs1)) (hr : refString kvs = none) : refString kvs1 = none := by
   simp only [stepMaplike] at h
   cases hd : findDesc T w with
-  | none => simp only [hd] at h; cases h; exact hl
+  | none => simp only [hd] at h; cases h; exact hr
   | some d =>
     simp only [hd] at h
     obtain ⟨kvs2, hm, e⟩ := wrap_ok _ _ _ h
     cases e
-    exact lookup_none_of_keys "$ref" _ kvs1 (mapKV_keys _ _ kvs1 hm) (lookup_filter_none "$ref" _ kvs hl)
+    have hr' : refString (kvs.filter (fun kv => kv.1 != "__origin__")) = none := by
+      have := lookup_filter "$ref" (fun k => k != "__origin__") kvs
+      unfold refString
+      rw [this]
+      simpa [refString] using hr
+    refine mapKV_refString _ _ kvs1 hm (fun x t hx ht => ?_) hr'
+    simp only [isExtKey_ref] at hx
+    exact entryStep_strOrigin hf _ (entryShape_ne_types T hT w d hd) x t hx ht
+
+/- a non-empty string in the output stood in the input -/
+
+theorem stepAddProps_str (hf : Inv f) (v : JV) (t : String) (h : stepAddProps f v = .ok (.str t)) (ht : t ≠ "") :
+    v = .str t := by
+  cases v with
+  | obj kvs =>
+    cases kvs with
+    | nil => simp [stepAddProps] at h
+    | cons kv r =>
+      simp only [stepAddProps] at h
+      exact hf.strOrigin _ _ t (by simp) h ht
+  | _ => simp only [stepAddProps] at h; cases h <;> rfl
+
+theorem stepList_str (s : Shape) (v : JV) (t : String) (h : stepList f s v = .ok (.str t)) : v = .str t := by
+  cases v with
+  | arr xs =>
+    simp only [stepList] at h
+    obtain ⟨ys, _, e⟩ := wrap_ok _ _ _ h
+    cases e
+  | _ => simp only [stepList] at h; cases h <;> rfl
+
+theorem stepMap_str (s : Shape) (v : JV) (t : String) (h : stepMap f s v = .ok (.str t)) : v = .str t := by
+  cases v with
+  | obj kvs =>
+    simp only [stepMap] at h
+    obtain ⟨ys, _, e⟩ := wrap_ok _ _ _ h
+    cases e
+  | _ => simp only [stepMap] at h; cases h <;> rfl
+
+theorem stepPMap_str (s : Shape) (v : JV) (t : String) (h : stepPMap T f s v = .ok (.str t)) : v = .str t := by
+  cases v with
+  | obj kvs =>
+    simp only [stepPMap] at h
+    obtain ⟨ys, _, e⟩ := wrap_ok _ _ _ h
+    cases e
+  | _ => simp only [stepPMap] at h; cases h <;> rfl
+
+theorem stepMaplike_str (w : String) (v : JV) (t : String) (h : stepMaplike T f w v = .ok (.str t)) :
+    v = .str t := by
+  cases v with
+  | obj kvs =>
+    simp only [stepMaplike] at h
+    cases hd : findDesc T w with
+    | none => simp [hd] at h
+    | some d =>
+      simp only [hd] at h
+      obtain ⟨ys, _, e⟩ := wrap_ok _ _ _ h
+      cases e
+  | _ => simp only [stepMaplike] at h; cases h <;> rfl
+
+theorem stepRef_str (hT : TableOK T) (hf : Inv f) (w : String) (v : JV) (t : String)
+    (h : stepRef T f w v = .ok (.str t)) (ht : t ≠ "") : v = .str t := by
+  cases v with
+  | obj kvs =>
+    simp only [stepRef] at h
+    cases hd : findDesc T w with
+    | none => simp [hd] at h
+    | some d =>
+      simp only [hd] at h
+      cases hr : refString kvs with
+      | some r => simp [hr] at h
+      | none =>
+        simp only [hr] at h
+        exact hf.strOrigin _ _ t (valueShape_ne_types T hT w d hd) h ht
+  | _ => simp only [stepRef] at h; cases h <;> rfl
 
 end steps
 
@@ -658,11 +841,11 @@ theorem clean_written (g : Guard) (x : JV) (h : x.clean = true) : (written g x).
 theorem clean_decode (tc : TC) (kvs : Obj) (k : String) (h : (JV.obj kvs).clean = true) :
     (decode tc (lookup k kvs)).clean = true := by
   cases hl : lookup k kvs with
-  | none => cases tc <;> simp [decode, zero, JV.clean, cleanO, trimmable, refOK, lookup]
+  | none => cases tc <;> simp [decode, zero, JV.clean, cleanO, trimmable, lookup]
   | some v =>
     have hv := clean_lookup kvs h k v hl
     cases v with
-    | null => cases tc <;> simp [decode, zero, JV.clean, cleanO, trimmable, refOK, lookup]
+    | null => cases tc <;> simp [decode, zero, JV.clean, cleanO, trimmable, lookup]
     | _ => exact hv
 
 /-- non-null route -/
@@ -1083,6 +1266,30 @@ theorem applyPost_keys (d : Desc) (o : Obj) : (applyPost d o).map (·.1) = o.map
     split <;> rfl
   · rfl
 
+theorem lookup_trim_ne (k : String) (hk : k ≠ "example") : ∀ (o : Obj),
+    lookup k (o.map (fun kv => if kv.1 == "example" then (kv.1, kv.2.trimDate) else kv)) = lookup k o
+  | [] => rfl
+  | (k', v) :: r => by
+    have ih := lookup_trim_ne k hk r
+    simp only [List.map_cons]
+    cases e2 : (k' == "example") with
+    | true =>
+      have : k' = "example" := by simpa using e2
+      have e : ¬ k = k' := by rw [this]; exact hk
+      simp only [if_true, lookup, e, if_false]; exact ih
+    | false =>
+      simp only [Bool.false_eq_true, if_false, lookup]
+      by_cases e : k = k'
+      · simp [e]
+      · simp only [e, if_false]; exact ih
+
+theorem applyPost_lookup_ne (d : Desc) (o : Obj) (k : String) (hk : k ≠ "example") :
+    lookup k (applyPost d o) = lookup k o := by
+  unfold applyPost
+  split
+  · exact lookup_trim_ne k hk o
+  · rfl
+
 theorem ref_not_marshKey (d : Desc) (w : WF compat d) : "$ref" ∉ marshKeys d := by
   rw [w.keysEq]; unfold expectedMarshKeys
   cases hre : d.refEarly with
@@ -1095,31 +1302,42 @@ theorem ref_not_marshKey (d : Desc) (w : WF compat d) : "$ref" ∉ marshKeys d :
     simp_all
 
 theorem marshalDeep_noRef {f : Shape → JV → Res JV} (d : Desc) (w : WF compat d) (kvs o1 : Obj)
-    (h : marshalDeep f d (unmarshal d (applyPost d kvs)) = .ok o1) (hl : lookup "$ref" kvs = none) :
-    lookup "$ref" o1 = none := by
-  have hl' : lookup "$ref" (applyPost d kvs) = none :=
-    lookup_none_of_keys "$ref" kvs _ (applyPost_keys d kvs) hl
+    (h : marshalDeep f d (unmarshal d (applyPost d kvs)) = .ok o1) (hr : refString kvs = none) :
+    refString o1 = none := by
+  have hl' : lookup "$ref" (applyPost d kvs) = lookup "$ref" kvs := applyPost_lookup_ne d kvs "$ref" (by decide)
+  rw [refString_none_iff] at hr ⊢
   unfold marshalDeep at h
   simp only [unmarshal_fld d _ _ w.asg, unmarshal_ext d _ w.asg w.unm, w.ext, if_true] at h
-  have href : (d.refEarly && !(fldVal d (applyPost d kvs) "Ref").isEmptyStr) = false := by
-    cases hre : d.refEarly with
-    | false => rfl
-    | true =>
-      obtain ⟨fr, hfr, hfk, hft⟩ := w.refField hre
-      simp [fldVal, hfr, hfk, hft, hl', decode, zero, JV.isEmptyStr]
-  simp only [href, Bool.false_eq_true, if_false] at h
-  obtain ⟨fs, hm, rfl⟩ := wrap_ok _ _ _ h
-  have hkeys := mapR_keys (·.key) _ _ fs hm (by
-    intro x _ y hy
-    obtain ⟨c, _, rfl⟩ := wrap_ok _ _ _ hy
-    rfl)
-  have h1 : lookup "$ref" fs = none := by
-    rw [lookup_none_iff, hkeys]
-    intro hc
-    obtain ⟨m', hm', e⟩ := List.mem_map.mp hc
-    exact ref_not_marshKey d w (List.mem_map.mpr ⟨m', (List.mem_filter.mp hm').1, e⟩)
-  rw [lookup_append, h1]
-  exact lookup_filter_none "$ref" _ _ hl'
+  by_cases hre : (d.refEarly && !(fldVal d (applyPost d kvs) "Ref").isEmptyStr) = true
+  · simp only [hre, if_true] at h
+    cases h
+    have hre' : d.refEarly = true := by simp only [Bool.and_eq_true] at hre; exact hre.1
+    obtain ⟨fr, hfr, hfk, hft⟩ := w.refField hre'
+    intro t ht
+    simp only [lookup, if_true, Option.some.injEq] at ht
+    by_cases h0 : t = ""
+    · exact h0
+    · simp only [fldVal, hfr, hfk, hft, hl'] at ht
+      exact hr t (decode_eq_nonempty_str _ _ t h0 ht)
+  · simp only [hre] at h
+    obtain ⟨fs, hm, rfl⟩ := wrap_ok _ _ _ h
+    have hkeys := mapR_keys (·.key) _ _ fs hm (by
+      intro x _ y hy
+      obtain ⟨c, _, rfl⟩ := wrap_ok _ _ _ hy
+      rfl)
+    have h1 : lookup "$ref" fs = none := by
+      rw [lookup_none_iff, hkeys]
+      intro hc
+      obtain ⟨m', hm', e⟩ := List.mem_map.mp hc
+      exact ref_not_marshKey d w (List.mem_map.mpr ⟨m', (List.mem_filter.mp hm').1, e⟩)
+    intro t ht
+    rw [lookup_append, h1] at ht
+    have := lookup_filter "$ref" (fun k => !(d.dels.contains k)) (applyPost d kvs)
+    simp only [Option.orElse] at ht
+    rw [this, hl'] at ht
+    split at ht
+    · exact hr t ht
+    · cases ht
 
 theorem deepOK_struct (d : Desc) (h : d.deepOK = true) (ht : d.template = .struct) :
     WF compat d ∧ (∀ fl ∈ d.fields, tcShapeOK fl.tc fl.shape = true) ∧
@@ -1183,23 +1401,43 @@ theorem stepKind_nn (hT : TableOK T) (hf : Inv f) (k : String) (v v1 : JV)
       | _ => simp only at h; cases h; exact hn
 
 theorem stepKind_noRef (hT : TableOK T) (hf : Inv f) (k : String) (kvs kvs1 : Obj)
-    (h : stepKind T f k (.obj kvs) = .ok (.obj kvs1)) (hl : lookup "$ref" kvs = none) :
-    lookup "$ref" kvs1 = none := by
+    (h : stepKind T f k (.obj kvs) = .ok (.obj kvs1)) (hr : refString kvs = none) :
+    refString kvs1 = none := by
   unfold stepKind at h
   cases hd : findDesc T k with
-  | none => simp only [hd] at h; cases h; exact hl
+  | none => simp only [hd] at h; cases h; exact hr
   | some d =>
     simp only [hd] at h
     cases ht : d.template with
-    | alias => simp only [ht] at h; exact hf.noRef _ kvs kvs1 h hl
-    | ref => simp only [ht] at h; cases h; exact hl
-    | maplike => simp only [ht] at h; cases h; exact hl
+    | alias => simp only [ht] at h; exact hf.noRef _ kvs kvs1 (valueShape_refSafe T hT k d hd) h hr
+    | ref => simp only [ht] at h; cases h; exact hr
+    | maplike => simp only [ht] at h; cases h; exact hr
     | struct =>
       simp only [ht] at h
       obtain ⟨o1, hm, e⟩ := wrap_ok _ _ _ h
       cases e
       obtain ⟨w, _, _⟩ := deepOK_struct d (hT d (findDesc_mem T k d hd)) ht
-      exact marshalDeep_noRef d w kvs kvs1 hm hl
+      exact marshalDeep_noRef d w kvs kvs1 hm hr
+
+theorem stepKind_str (hT : TableOK T) (hf : Inv f) (k : String) (v : JV) (t : String)
+    (h : stepKind T f k v = .ok (.str t)) (ht : t ≠ "") : v = .str t := by
+  unfold stepKind at h
+  cases hd : findDesc T k with
+  | none => simp only [hd] at h; cases h <;> rfl
+  | some d =>
+    simp only [hd] at h
+    cases htm : d.template with
+    | alias => simp only [htm] at h; exact hf.strOrigin _ _ t (valueShape_ne_types T hT k d hd) h ht
+    | ref => simp only [htm] at h; cases h <;> rfl
+    | maplike => simp only [htm] at h; cases h <;> rfl
+    | struct =>
+      simp only [htm] at h
+      cases v with
+      | obj kvs =>
+        simp only at h
+        obtain ⟨o1, _, e⟩ := wrap_ok _ _ _ h
+        cases e
+      | _ => simp only at h; cases h <;> rfl
 
 end kinds
 
@@ -1218,7 +1456,7 @@ theorem rtStep_inv {T : List Desc} {f : Shape → JV → Res JV} (hT : TableOK T
     | list s => simp only [rtStep] at h ⊢; exact stepList_idem hf s v v1 hv h
     | map s => simp only [rtStep] at h ⊢; exact stepMap_idem hf s v v1 hv h
     | pmap s => simp only [rtStep] at h ⊢; exact stepPMap_idem hf s v v1 hv h
-    | ref w => simp only [rtStep] at h ⊢; exact stepRef_idem hf w v v1 hv h
+    | ref w => simp only [rtStep] at h ⊢; exact stepRef_idem hT hf w v v1 hv h
     | maplike w => simp only [rtStep] at h ⊢; exact stepMaplike_idem hf w v v1 hv h
     | kind k => simp only [rtStep] at h ⊢; exact stepKind_idem hT hf k v v1 hv h
   nn := by
@@ -1248,19 +1486,37 @@ theorem rtStep_inv {T : List Desc} {f : Shape → JV → Res JV} (hT : TableOK T
     | pmap s => simp only [rtStep] at h; exact stepPMap_coll s v v1 h hn
     | _ => simp [collShape] at hs
   noRef := by
-    intro s kvs kvs1 h hl
+    intro s kvs kvs1 hs h hr
     cases s with
-    | leaf => simp only [rtStep] at h; cases h; exact hl
-    | strLeaf => simp only [rtStep] at h; cases h; exact hl
-    | unknown t => simp only [rtStep] at h; cases h; exact hl
+    | leaf => simp only [rtStep] at h; cases h; exact hr
+    | strLeaf => simp only [rtStep] at h; cases h; exact hr
+    | unknown t => simp only [rtStep] at h; cases h; exact hr
     | types => simp [rtStep, rtTypes] at h
-    | addProps => simp only [rtStep] at h; exact stepAddProps_noRef hf kvs kvs1 h hl
-    | list s => simp only [rtStep, stepList] at h; cases h; exact hl
-    | map s => simp only [rtStep] at h; exact stepMap_noRef s kvs kvs1 h hl
-    | pmap s => simp only [rtStep] at h; exact stepPMap_noRef s kvs kvs1 h hl
-    | ref w => simp only [rtStep] at h; exact stepRef_noRef hf w kvs kvs1 h hl
-    | maplike w => simp only [rtStep] at h; exact stepMaplike_noRef w kvs kvs1 h hl
-    | kind k => simp only [rtStep] at h; exact stepKind_noRef hT hf k kvs kvs1 h hl
+    | addProps => simp only [rtStep] at h; exact stepAddProps_noRef hf kvs kvs1 h hr
+    | list s => simp only [rtStep, stepList] at h; cases h; exact hr
+    | map s =>
+      simp only [rtStep] at h
+      exact stepMap_noRef hf s (by simpa [refSafe] using hs) kvs kvs1 h hr
+    | pmap s =>
+      simp only [rtStep] at h
+      exact stepPMap_noRef hf s (by simpa [refSafe] using hs) kvs kvs1 h hr
+    | ref w => simp only [rtStep] at h; exact stepRef_noRef hT hf w kvs kvs1 h hr
+    | maplike w => simp only [rtStep] at h; exact stepMaplike_noRef hT hf w kvs kvs1 h hr
+    | kind k => simp only [rtStep] at h; exact stepKind_noRef hT hf k kvs kvs1 h hr
+  strOrigin := by
+    intro s v t hs h ht
+    cases s with
+    | leaf => simp only [rtStep] at h; cases h; rfl
+    | strLeaf => simp only [rtStep] at h; cases h; rfl
+    | unknown u => simp only [rtStep] at h; cases h; rfl
+    | types => exact absurd rfl hs
+    | addProps => simp only [rtStep] at h; exact stepAddProps_str hf v t h ht
+    | list s => simp only [rtStep] at h; exact stepList_str s v t h
+    | map s => simp only [rtStep] at h; exact stepMap_str s v t h
+    | pmap s => simp only [rtStep] at h; exact stepPMap_str s v t h
+    | ref w => simp only [rtStep] at h; exact stepRef_str hT hf w v t h ht
+    | maplike w => simp only [rtStep] at h; exact stepMaplike_str w v t h
+    | kind k => simp only [rtStep] at h; exact stepKind_str hT hf k v t h ht
 
 theorem rt_inv {T : List Desc} (hT : TableOK T) : ∀ n, Inv (rt T n)
   | 0 => by
